@@ -137,6 +137,35 @@ class Sorts:
                 self.env.setdefault(n.target.id, s)
 
 
+def _closed_forms(ctx: Ctx) -> None:
+    import itertools
+
+    import sympy as sp
+
+    from ..mdcevformulas import LAM, X, Formula, same
+
+    prog = ctx.prog
+    base = prog.cls('mdcev.mdcev', 'Mdcev')
+    names = ('utility_expression_one_alternative', 'utility_one_alternative', 'derivative_utility_one_alternative', 'optimal_consumption_one_alternative')
+    variants = [c for c in prog.subclasses(base) if all(n in c.methods for n in names)]
+    if len(variants) < 4:
+        raise AnalysisError(f'C18.R3: only {len(variants)} MDCEV variants implement the four closed forms')
+    for c in sorted(variants, key=lambda z: z.name):
+        uses_prices = any(unparse(n) == 'self.prices' for m in names for n in ast.walk(c.methods[m].node) if isinstance(n, ast.Attribute))
+        for g, sc, pr in itertools.product((True, False), (True, False), (True, False) if uses_prices else (True,)):
+            cfg = dict(gamma_none=g, scale_none=sc, prices_none=pr)
+            label = ('no gamma' if g else 'gamma') + (', no scale' if sc else ', scale') + ((', no prices' if pr else ', prices') if uses_prices else '')
+            F = {n: Formula(c.methods[n], cfg) for n in names}
+            us, u, d, o = (F[n].ret for n in names)
+            ok = same(u, us)
+            ctx.add('C18.R3', f'{c.name}[{label}]:numeric=symbolic', ok, c.methods[names[1]], f'utility_one_alternative = {sp.simplify(u)}' + ('' if ok else f' ; utility_expression_one_alternative = {sp.simplify(us)}'), 'num=sym')
+            ok = same(sp.diff(u, X), d)
+            ctx.add('C18.R3', f'{c.name}[{label}]:derivative', ok, c.methods[names[2]], f'derivative_utility_one_alternative = {sp.simplify(d)}' + ('' if ok else f' ; d/dx of the utility is {sp.simplify(sp.diff(u, X))}'), 'derivative')
+            ok = same(d.subs(X, o), LAM)
+            ctx.add('C18.R3', f'{c.name}[{label}]:inverse', ok, c.methods[names[3]], f'optimal_consumption_one_alternative = {sp.simplify(o)}' + ('' if ok else f' ; the derivative at that consumption is {sp.simplify(d.subs(X, o))}, not the dual variable'), 'inverse')
+    ctx.floor('C18.R3', 60)
+
+
 def run(ctx: Ctx) -> None:
     prog = ctx.prog
     ctx.rule('C18.R1', 'label / position typing over the five MDCEV modules: every integer-valued expression is an alternative label (dictionary key, the_id, element of '
@@ -144,7 +173,11 @@ def run(ctx: Ctx) -> None:
              'unknown; a label-keyed container is subscripted with labels, a positional array (epsilon, consumptions, x, bounds) with positions, labels are compared '
              'with labels; a label-keyed dictionary is flattened to a positional array only in the order of index_to_key; key_to_index is the inverse of index_to_key')
     ctx.rule('C18.R2', 'caller-owned arrays: a parameter annotated as numpy array (the vector of error terms) is never modified in place')
-    ctx.not_decided += ['KKT conditions, budget exhaustion, optimality against brute force, agreement of utility / derivative / inverse formulas (numerical)']
+    ctx.rule('C18.R3', 'closed forms agree (formula normal form): for every MDCEV variant and every configuration (gamma present or not, scale present or not, prices '
+             'present or not) the numeric utility equals the symbolic utility, the numeric derivative is the derivative of that utility with respect to the consumption, '
+             'and the closed-form optimal consumption, substituted into the derivative, gives back the dual variable - at a generic interior point (boundary guards '
+             'for zero consumption / zero dual variable / alpha at 0 or 1 / overflow are not examined)')
+    ctx.not_decided += ['KKT conditions, budget exhaustion, non-negativity, optimality against brute force (numerical)', 'the boundary branches of the closed forms (zero consumption, zero dual variable)']
     n_sub = n_cmp = 0
     for mod in MODS:
         m = prog.module(mod)
@@ -208,6 +241,7 @@ def run(ctx: Ctx) -> None:
                 ctx.add('C18.R2', f'{f.qualname}({p})', True, f, f'array parameter {p} examined', p)
     if n_sub < 15 or n_cmp < 2:
         raise AnalysisError(f'C18.R1: only {n_sub} typed subscripts / {n_cmp} typed comparisons found in the MDCEV modules')
+    _closed_forms(ctx)
     M = prog.cls('mdcev.mdcev', 'Mdcev')
     init = M.methods['__init__']
     ok = (has(init.node, 'self.index_to_key = [_K for _K in self.alternatives]') or has(init.node, 'self.index_to_key = list(self.alternatives)')) \
@@ -229,6 +263,16 @@ def run(ctx: Ctx) -> None:
 _G = 'src/biogeme/mdcev/gamma_profile.py'
 _M = 'src/biogeme/mdcev/mdcev.py'
 MUTANTS = [
+    dict(name='generalized: derivative forgets the price', rule='C18.R3', file='src/biogeme/mdcev/generalized.py',
+         old='            * (1 + the_consumption / (price * gamma.get_value())) ** (alpha - 1)\n            / price\n        )\n\n    def optimal_consumption_one_alternative', new='            * (1 + the_consumption / (price * gamma.get_value())) ** (alpha - 1)\n        )\n\n    def optimal_consumption_one_alternative'),
+    dict(name='translated: optimal consumption adds gamma', rule='C18.R3', file='src/biogeme/mdcev/translated.py', old='        return np.exp(log_result) - gamma.get_value()', new='        return np.exp(log_result) + gamma.get_value()'),
+    dict(name='non-monotonic: numeric utility forgets 1/alpha', rule='C18.R3', file='src/biogeme/mdcev/non_monotonic.py',
+         old='            * ((1 + the_consumption / gamma.get_value()) ** alpha - 1)\n            / alpha\n            + (mu_utility + epsilon) * the_consumption\n        )\n\n    def derivative_utility_one_alternative',
+         new='            * ((1 + the_consumption / gamma.get_value()) ** alpha - 1)\n            + (mu_utility + epsilon) * the_consumption\n        )\n\n    def derivative_utility_one_alternative'),
+    dict(name='gamma profile: symbolic utility without the translation by one', rule='C18.R3', file=_G,
+         old='            * log(1 + the_consumption / (price * gamma))', new='            * log(the_consumption / (price * gamma))'),
+    dict(name='translated: derivative uses alpha instead of alpha - 1', rule='C18.R3', file='src/biogeme/mdcev/translated.py',
+         old='                    + np.log(alpha)\n                    + (alpha - 1) * np.log(the_consumption)\n', new='                    + np.log(alpha)\n                    + alpha * np.log(the_consumption)\n'),
     dict(name='pre-fix: consumptions listed in the order of the sorted labels', rule='C18.R1', file=_M, old='            np.array([analytical[key] for key in self.index_to_key])', new='            np.array([value for key, value in sorted(analytical.items())])'),
     dict(name='pre-fix: label compared with the outside good position', rule='C18.R1', file=_G, old='        if the_id == self.outside_good_key and the_consumption == 0.0:', new='        if the_id == self.outside_good_index and the_consumption == 0.0:'),
     dict(name='epsilon indexed by the label', rule='C18.R1', file=_M, old='                    epsilon=float(epsilon[self.key_to_index[alt_id]]),\n                    one_observation=one_observation,', new='                    epsilon=float(epsilon[alt_id]),\n                    one_observation=one_observation,'),
